@@ -70,7 +70,20 @@ TApi ==
 TResolve == IsEvent("resolve") /\ Accept(Resolve(s, E.req, E.how))
 TProgress == IsEvent("progress") /\ Accept(Progress(s, E.req))
 
-TNext == TOpen \/ TRx \/ TLost \/ TApi \/ TResolve \/ TProgress
+\* One invocation through a real transport (WebSocket / RawSocket, this framework): what arrives at the router.
+\* Exactly one terminal reply with the invocation's id, of the kind ReplyOf(beh); a progressive YIELD only before it and
+\* only if asked for; the endpoint saw the caller's arguments; the session lives on.
+TInvReal ==
+  /\ IsEvent("inv") /\ UNCHANGED <<s, re>>
+  /\ LET o == E.obs
+         term == SelectSeq(o.replies, LAMBDA r : ~r.progress)
+         prog == SelectSeq(o.replies, LAMBDA r : r.progress) IN
+     /\ o.esc = "" /\ o.alive /\ o.calls = 1 /\ o.argsOk
+     /\ Len(term) = 1 /\ term[1].t = ReplyOf(E.beh) /\ term[1].req = E.req
+     /\ o.replies[Len(o.replies)] = term[1]                              \* nothing after the terminal reply
+     /\ Len(prog) = (IF E.rp THEN 1 ELSE 0)
+     /\ \A i \in 1..Len(prog) : prog[i].t = "yield" /\ prog[i].req = E.req
+TNext == TOpen \/ TRx \/ TLost \/ TApi \/ TResolve \/ TProgress \/ TInvReal
 TraceSpec == TInit /\ [][TNext]_tvars
 Progress_ == TLCSet(tid, IF TLCGet(tid) < l THEN l ELSE TLCGet(tid))
 Post ==
